@@ -104,3 +104,18 @@ Proof.
   - exists "r_1", ex2_r1. split; [exact H1|]. split; apply (bool_decide_unpack _); vm_compute; exact Logic.I.
   - apply (bool_decide_unpack _); vm_compute; exact Logic.I.
 Qed.
+
+(** duck-typed merge: a missing id and a taken id are regenerated (from the RAW
+    rule), an edge that normalises to nothing stops the merge with ValueError
+    after the edges before it were merged *)
+Definition ex2_raw_ok : list raw_edge :=
+  [ (None, "", [ILabel "x"], [IPair "D" 2]); (Some "r_1", "r", [ILabel "D"], []); (Some "k", "q", [ILabel "D"], [ILabel "D"]) ].
+Definition ex2_raw_bad : list raw_edge :=
+  [ (Some "k", "q", [ILabel "D"], []); (Some "k2", "r", [IPair "A" 0], [ILabel ""]); (Some "k3", "q", [ILabel "D"], []) ].
+Example C15_ext_merge_raw_nonvacuous :
+  (merge_raw ex2_pre ex2_raw_ok false).2 = None ∧
+  order (merge_raw ex2_pre ex2_raw_ok false).1 = ["r_1"; "x"; "_1"; "r_2"; "k"] ∧
+  order (merge_raw ex2_pre ex2_raw_ok true).1 = ["r_1"; "x"; "_1"; "r_2"; "q_1"] ∧
+  (merge_raw ex2_pre ex2_raw_bad false).2 = Some ValueError ∧
+  order (merge_raw ex2_pre ex2_raw_bad false).1 = ["r_1"; "x"; "k"].
+Proof. split_and!; apply (bool_decide_unpack _); vm_compute; exact Logic.I. Qed.
